@@ -273,7 +273,7 @@ def run(res, tier, seed):
             extra_first = {"statement": t, "what": "parser model and implementation disagree", "impl": a,
                            "model": m, "no_input": True}
     # --- folding through the real pipeline (math_op table + operate + rule)
-    fcases = fold_programs(rng, 3 if tier == "quick" else 40)
+    fcases = fold_programs(rng, 3 if tier == "quick" else 200)
     freqs = [f"pipe facts 1 {hx('m.s')} {hx(src)}" for *_, src in fcases]
     fimpl = run_lines_isolated(RVH_DEBUG, freqs, chunk=200)
     for (m_, op, x, y, src), blk in zip(fcases, fimpl):
@@ -293,7 +293,7 @@ def run(res, tier, seed):
     res.notes["decode_cases"] = len(dcases)
     res.notes["fold_programs"] = len(fcases)
 
-    cases = gen_operate(rng, 400 if tier == "quick" else 20000)
+    cases = gen_operate(rng, 400 if tier == "quick" else 400000)
     reqs = [f"operate {o} {x} {y}" for o, x, y in cases]
     dbg = run_lines_isolated(RVH_DEBUG, reqs, chunk=5000)
     rel = run_lines_isolated(RVH_RELEASE, reqs, chunk=5000)
